@@ -71,7 +71,13 @@ const (
 	// with the histogram bucket bound values.
 	DefaultHistogramBucketTagPrecision = uint(6)
 
-	_emitMetricBatchOverhead    = 19
+	// _emitMetricBatchMethod is the name of the thrift method the batches are
+	// sent with (see m3thrift.M3Client).
+	_emitMetricBatchMethod = "emitMetricBatchV2"
+	// _maxListHeaderGrowth is by how much the header of the metric list can
+	// outgrow that of an empty list (compact protocol: the element count moves
+	// out of the header byte into a varint once there are 15 elements).
+	_maxListHeaderGrowth        = 5
 	_minMetricBucketIDTagLength = 4
 	_timeResolution             = 100 * time.Millisecond
 )
@@ -243,7 +249,18 @@ func NewReporter(opts Options) (Reporter, error) {
 		proto = resourcePool.getProto()
 	)
 
-	if err := batch.Write(proto); err != nil {
+	// Everything in a datagram that is not a metric: the message header with
+	// the longest sequence id, the framing of the call's argument and of the
+	// batch, the common tags and the metric list header.
+	args := m3thrift.M3EmitMetricBatchV2Args{Batch: batch}
+	err = proto.WriteMessageBegin(_emitMetricBatchMethod, thrift.ONEWAY, math.MaxInt32)
+	if err == nil {
+		err = args.Write(proto)
+	}
+	if err == nil {
+		err = proto.WriteMessageEnd()
+	}
+	if err != nil {
 		return nil, errors.WithMessage(
 			err,
 			"failed to write to proto for size calculation",
@@ -254,7 +271,7 @@ func NewReporter(opts Options) (Reporter, error) {
 
 	var (
 		calc             = proto.Transport().(*customtransport.TCalcTransport)
-		numOverheadBytes = _emitMetricBatchOverhead + calc.GetCount()
+		numOverheadBytes = _maxListHeaderGrowth + calc.GetCount()
 		freeBytes        = opts.MaxPacketSizeBytes - numOverheadBytes
 	)
 	calc.ResetCount()
